@@ -8,7 +8,7 @@ set_option linter.unusedSimpArgs false
 /-- a service of the model as the `*WebService` the function walks; `mk` builds the Route value around
     the two fields that are read -/
 def genWS (E : ReEnv) (mk : RouteDecl → Option ImpGen.GoPathExpression → ImpGen.GoRoute) (ws : Service) : ImpGen.GoWebService :=
-  { pathExpr := genPE E ws.rootPath, routes := ws.routes.map (fun rt => mk rt (genPE E rt.relPath)) }
+  { rootPath := ws.rootPath, pathExpr := genPE E ws.rootPath, routes := ws.routes.map (fun rt => mk rt (genPE E rt.relPath)) }
 
 namespace T9
 
